@@ -56,7 +56,8 @@ def model_roles(repo, md: FuncInfo):
     if isinstance(c.func, ast.Attribute) and txt(c.func.value) == 'metrics' and c.func.attr.startswith('Sequence'):
       from fjsa.flow import bound_args
       for arg, value in bound_args(ff, c).items():
-        value = ff.expand1(value) or value   # a tuple shared through a local name
+        ev_ = ff.expand1(value)
+        value = ev_ if isinstance(ev_, ast.Tuple) else value   # a tuple shared through a local name
         if arg == 'masked_target_values' and isinstance(value, ast.Tuple) and value.elts:
           firsts.append(value.elts[0])
           if len(value.elts) > 1:
@@ -263,7 +264,8 @@ def _metric_tables(check: Check):
             if name == 'logits_mask':
               args.append((name, 'MASK'))
               continue
-            t = ast.unparse(ff.expand1(a) or a)
+            ea_ = ff.expand1(a)
+            t = ast.unparse(ea_ if isinstance(ea_, ast.Tuple) else a)
             for nm, role in back.items():
               t = re.sub(r'\b' + re.escape(nm) + r'\b', role, t)
             args.append((name, t))
@@ -298,7 +300,8 @@ def _metric_config(check: Check):
         for kw in c.keywords:
           if kw.arg in ('masked_target_values', 'oov_target_values', 'eos_target_value'):
             n += 1
-            kwv = ff.expand1(kw.value) or kw.value
+            kwv = ff.expand1(kw.value)
+            kwv = kwv if isinstance(kwv, ast.Tuple) else kw.value
             names = [x.id for x in ast.walk(kwv) if isinstance(x, ast.Name)]
             lits = [x for x in ast.walk(kwv) if isinstance(x, ast.Constant)]
             want = {'masked_target_values': {rn.get('pad')}, 'oov_target_values': {rn.get('oov')}, 'eos_target_value': {rn.get('eos')}}[kw.arg]
